@@ -76,7 +76,19 @@ func genCase(t *rapid.T, w *chain.World) (*chain.Program, []chain.Op, []chain.Fa
 			faults = append(faults, chain.Fault{Write: rapid.IntRange(0, 4).Draw(t, "faultAt"), Accept: rapid.IntRange(0, 3).Draw(t, "accept")})
 		}
 	}
-	return &chain.Program{Opts: model.Options{}, Body: body}, all, faults
+	prog := &chain.Program{Opts: model.Options{}, Body: body}
+	// one case in four: a handler panics somewhere among its ops and an OnPanic hook sets the status / writes
+	if rapid.IntRange(0, 3).Draw(t, "panicking") == 0 {
+		h := scripts[rapid.IntRange(0, nh-1).Draw(t, "panicIn")]
+		at := rapid.IntRange(0, len(h.Ops)).Draw(t, "panicAt")
+		h.Ops = append(append(append([]chain.Op{}, h.Ops[:at]...), chain.Op{K: chain.OpPanic, S: h.Name}), h.Ops[at:]...)
+		var hook []chain.Op
+		for i, k := 0, rapid.IntRange(0, 3).Draw(t, "nhookOps"); i < k; i++ {
+			hook = append(hook, genOp(t))
+		}
+		prog.Hooks.OnPanic = w.NewScript("onpanic", hook...)
+	}
+	return prog, all, faults
 }
 
 func classify(prog *chain.Program, faults []chain.Fault) (nontrivial []string) {
@@ -136,6 +148,9 @@ func classify(prog *chain.Program, faults []chain.Fault) (nontrivial []string) {
 	}
 	if len(faults) > 0 {
 		nontrivial = append(nontrivial, "faulted-write")
+	}
+	if prog.Hooks.OnPanic != nil {
+		nontrivial = append(nontrivial, "panic-with-OnPanic-hook")
 	}
 	return
 }
